@@ -307,14 +307,14 @@ func reportViolation(bin string, known *knownFile, prop, tier string, baseSeed u
 		th2 = o2.res.TraceHash
 	}
 	if th != th2 {
-		os.MkdirAll(filepath.Join(verifDir, "replays"), 0o755)
+		os.MkdirAll(filepath.Join(outDir, "replays"), 0o755)
 		data, _ := json.MarshalIndent(min, "", " ")
-		os.WriteFile(filepath.Join(verifDir, "replays", fmt.Sprintf("nondet-%s-%d.json", prop, o.c.Seed)), data, 0o644)
+		os.WriteFile(filepath.Join(outDir, "replays", fmt.Sprintf("nondet-%s-%d.json", prop, o.c.Seed)), data, 0o644)
 		die2("replay of the minimised case is not exact: trace %s vs %s (case kept under replays/nondet-*)", th, th2)
 	}
 	min.Expect = &cf.Expect{Rule: got.Rule, TraceHash: th, Detail: got.Detail}
-	os.MkdirAll(filepath.Join(verifDir, "replays"), 0o755)
-	path := filepath.Join(verifDir, "replays", fmt.Sprintf("%s-%d.json", prop, o.c.Seed))
+	os.MkdirAll(filepath.Join(outDir, "replays"), 0o755)
+	path := filepath.Join(outDir, "replays", fmt.Sprintf("%s-%d.json", prop, o.c.Seed))
 	data, _ := json.MarshalIndent(min, "", " ")
 	os.WriteFile(path, data, 0o644)
 	writeEvidence(spec, tier, baseSeed, a, 1, t0, nil)
@@ -494,14 +494,23 @@ func writeEvidence(spec *propSpec, tier string, seed uint64, a *agg, violations 
 		"wall_s":      wall,
 		"violations":  violations,
 	}
-	os.MkdirAll(filepath.Join(verifDir, "evidence"), 0o755)
+	os.MkdirAll(filepath.Join(outDir, "evidence"), 0o755)
 	data, _ := json.MarshalIndent(ev, "", " ")
-	os.WriteFile(filepath.Join(verifDir, "evidence", spec.id+".json"), data, 0o644)
+	os.WriteFile(filepath.Join(outDir, "evidence", spec.id+".json"), data, 0o644)
 }
 
 func (s *propSpec) wantProbes() []string { return probeWants[s.id] }
 
-var probeWants = map[string][]string{}
+var probeWants = map[string][]string{
+	"C01": {"message-resent", "fresh-input-while-partition-retrying"},
+	"C02": {"message-resent", "fresh-input-while-partition-retrying"},
+	"C05": {"message-resent", "idempotent-duplicate-deduplicated", "identical-batch-resent"},
+	"C03": {"partial-trailing-message", "reader-stalled-beyond-max-processing-time", "offset-out-of-range-shutdown"},
+	"C06": {"mark-or-reset-while-commit-in-flight"},
+	"C07": {"session-expired", "handler-returned-early", "committed-offset-out-of-range-fallback"},
+	"C13": {"sticky-premise-met"},
+	"C15": {"response-served-while-several-calls-in-progress"},
+}
 
 // c12Batch: C12 enumerates shutdown points. A base case of one scenario family is run once without a
 // close point to count its model events K; then the same case is re-run with close-at(k) for every
